@@ -363,7 +363,7 @@ fn eval_step_expr(
         expr::Step::Current => Ok(vec![node]),
         expr::Step::Parent => match node {
             dom::XmlNode::Document(_) => Ok(vec![]),
-            _ => Ok(node.parent_node().map(|p| vec![p]).unwrap_or_default()),
+            _ => Ok(parent(&node).map(|p| vec![p]).unwrap_or_default()),
         },
         expr::Step::Test(axis, test, predicate) => {
             eval_axis_node_test(axis, test, predicate, node, context)
